@@ -54,8 +54,10 @@ def _key():
 
 EVENT_NAMES = ["x11-granted", "x11-denied", "agent", "forward-granted", "forward-denied",
                "forward-inactive-granted", "forward-inactive-denied", "cancel", "cancel-inactive",
-               "other-global-granted", "other-global-denied"]
-NEV = len(EVENT_NAMES)
+               "other-global-granted", "other-global-denied",
+               "forward-granted-rekey-while-pending", "forward-denied-rekey-while-pending"]
+NEV = 11          # codes 0..10 form the exhaustive alphabet; 11/12 (a re-key completes while the request is
+                  # pending; costs a 0.25 s hold each) are added to chosen prefixes and to random histories
 SCHEDULES = ["sync", "switch-after-set"]
 _quiet = [False]
 
@@ -90,24 +92,49 @@ class SpyServer:
         return f
 
 
+class Ctl:
+    """One switch point: the first controlled Event that is set() holds its setter until the gate opens."""
+
+    def __init__(self, hold):
+        self.hold = hold
+        self.gate = threading.Event()
+        self.lock = threading.Lock()
+        self.used = False
+
+    def take(self):
+        with self.lock:
+            if self.used:
+                return False
+            self.used = True
+            return True
+
+
 class SwitchEvent(threading.Event):
-    """threading.Event with a deterministic switch point: when armed, the thread that calls set() is held
-    right after the flag is set until the gate opens, i.e. the waiting thread runs first (a legal schedule)."""
+    """threading.Event with a deterministic switch point: while a controller is attached, the thread that calls
+    set() is held right after the flag is set until the gate opens, i.e. the waiting thread runs first (a legal
+    schedule).  Without a controller it is an ordinary Event."""
 
     def __init__(self):
         super().__init__()
-        self.armed = False
-        self.gate = threading.Event()
-
-    def arm(self):
-        self.gate = threading.Event()
-        self.armed = True
+        self.ctl = None
 
     def set(self):
         super().set()
-        if self.armed:
-            self.armed = False
-            self.gate.wait(3.0)
+        c = self.ctl
+        if c is not None and c.take():
+            c.gate.wait(c.hold)
+
+
+def install_event_shim():
+    """paramiko.transport looks `threading.Event` up at call time: give that module (only) a view of
+    `threading` whose Event is SwitchEvent, so that whichever Event a Transport method creates and waits on -
+    via an attribute or a local variable - can be given a switch point."""
+    import types
+    import paramiko.transport as pt
+    if getattr(pt.threading, "Event", None) is not SwitchEvent:
+        shim = types.SimpleNamespace(**vars(threading))
+        shim.Event = SwitchEvent
+        pt.threading = shim
 
 
 class Rig:
@@ -118,10 +145,12 @@ class Rig:
 
     def __init__(self, server_mode=False, server_object=None, schedule="sync"):
         self.schedule = schedule
-        self.pending = []         # (SwitchEvent, thread) of replies in flight
+        self.pending = []         # (Ctl, controlled events, thread) of replies in flight
+        self.rekey_first = False  # a re-key completes (NEWKEYS is processed) before the pending reply arrives
         from paramiko.transport import Transport
         from _loop import LoopSocket
         quiet()
+        install_event_shim()
         self.t = Transport(LoopSocket())
         self.t.active = True
         self.t.server_mode = server_mode
@@ -146,6 +175,10 @@ class Rig:
         b = m.asbytes()
         self.sent.append((b[0], bytes(b[1:])))
 
+    def transport_events(self):
+        """Every Event the transport currently holds (the one the pending call waits on is among them)."""
+        return [v for v in vars(self.t).values() if isinstance(v, SwitchEvent)]
+
     def _send_user(self, m):
         from paramiko import Message
         b = m.asbytes()
@@ -158,38 +191,70 @@ class Rig:
             if want:
                 chan = self.chans[rcid]
                 fn = chan._request_success if self.grant else chan._request_failed
-                self._deliver(chan.event if isinstance(chan.event, SwitchEvent) else None, fn, Message())
+                self._deliver([chan.event] if isinstance(chan.event, SwitchEvent) else [], fn, Message())
         elif b[0] == 80:     # GLOBAL_REQUEST from the client
             name = mm.get_text()
             want = mm.get_boolean()
-            if want:
-                ev = None
-                if self.schedule != "sync":
-                    ev = SwitchEvent()
-                    self.t.completion_event = ev      # the Event global_request() is about to wait on
+            if want and self.rekey_first:
+                self._rekey_then_reply()
+            elif want:
                 if self.grant:
                     r = Message()
                     r.add_int(4242)
                     r.rewind()
-                    self._deliver(ev, self.t._parse_request_success, r)
+                    self._deliver(self.transport_events(), self.t._parse_request_success, r)
                 else:
-                    self._deliver(ev, self.t._parse_request_failure, Message())
+                    self._deliver(self.transport_events(), self.t._parse_request_failure, Message())
 
-    def _deliver(self, ev, fn, m):
-        if self.schedule == "sync" or ev is None:
+    def _rekey_then_reply(self):
+        """The transport thread's role: NEWKEYS of a re-key is processed while the global request is pending
+        (the real Transport._parse_newkeys, cipher activation stubbed out), the waiter gets the chance to run
+        (held for 0.25 s, or until the requesting call returns, right after the first Event.set() - or after
+        _parse_newkeys if it signals nothing), and only then the server's reply arrives."""
+        from paramiko import Message
+        t = self.t
+        t._activate_inbound = lambda: None
+        ctl = Ctl(0.25)
+        evs = self.transport_events()
+        for e in evs:
+            e.ctl = ctl
+        grant = self.grant
+
+        def transport_thread():
+            t._parse_newkeys(Message())
+            if ctl.take():                     # nothing was signalled: still give the waiter its turn
+                ctl.gate.wait(ctl.hold)
+            if grant:
+                r = Message()
+                r.add_int(4242)
+                r.rewind()
+                t._parse_request_success(r)
+            else:
+                t._parse_request_failure(Message())
+
+        th = threading.Thread(target=transport_thread, daemon=True)
+        self.pending.append((ctl, evs, th))
+        th.start()
+
+    def _deliver(self, evs, fn, m):
+        if self.schedule == "sync" or not evs:
             fn(m)
             return
-        ev.arm()
+        ctl = Ctl(3.0)
+        for e in evs:
+            e.ctl = ctl
         th = threading.Thread(target=fn, args=(m,), daemon=True)
-        self.pending.append((ev, th))
+        self.pending.append((ctl, evs, th))
         th.start()
 
     def release(self):
         """Let the reply-processing threads finish (the requesting call has returned or raised)."""
-        for ev, th in self.pending:
-            ev.gate.set()
-        for ev, th in self.pending:
+        for ctl, evs, th in self.pending:
+            ctl.gate.set()
+        for ctl, evs, th in self.pending:
             th.join(5.0)
+            for e in evs:
+                e.ctl = None
         self.pending = []
 
     def new_channel(self):
@@ -241,10 +306,15 @@ class Rig:
             elif code in (9, 10):
                 self.grant = code == 9
                 t.global_request("ping@example.com", ("x",), wait=True)
+            elif code in (11, 12):
+                self.grant = code == 11
+                self.rekey_first = True
+                t.request_port_forward("127.0.0.1", 0 if custom else 8022, handler=self.cb(2) if custom else None)
         except paramiko.SSHException:
             pass
         finally:
             self.release()
+            self.rekey_first = False
         self.grant = True
 
     def handler_state(self):
@@ -333,7 +403,7 @@ def enabled_after(hist):
             x11 = True
         elif c == 2:
             agent = True
-        elif c == 3:
+        elif c in (3, 11):
             tcp = True
         elif c == 7:
             tcp = False
@@ -410,6 +480,105 @@ def drive_open(ctx, hist, custom, kinds, cases, server=None, schedule="sync"):
             cases.append(((server_mode, list(hist), list(kind.encode("utf-8")), reason), obs + state, case))
     finally:
         rig.close()
+
+
+def live_rekey_scenario(ctx):
+    """End to end on a real loopback pair: a granted forward is cancelled (a success reply is left behind), the
+    server then refuses a second forward but answers late, and a server-initiated re-key completes in between.
+    request_port_forward must not return before the answer, and the forwarded-tcpip channel the server opens
+    afterwards must be refused."""
+    import time
+    import paramiko
+    from paramiko.common import MSG_GLOBAL_REQUEST
+    from _loop import LoopSocket
+    from common import with_watchdog
+    quiet()
+
+    class Srv(paramiko.ServerInterface):
+        grant = True
+
+        def check_auth_password(self, u, p):
+            return paramiko.AUTH_SUCCESSFUL
+
+        def get_allowed_auths(self, u):
+            return "password"
+
+        def check_channel_request(self, kind, chanid):
+            return paramiko.OPEN_SUCCEEDED
+
+        def check_port_forward_request(self, address, port):
+            return port if self.grant else False
+
+        def cancel_port_forward_request(self, address, port):
+            pass
+
+    srv = Srv()
+    a, b = LoopSocket(), LoopSocket()
+    a.link(b)
+    tc, ts = paramiko.Transport(a), paramiko.Transport(b)
+    case = {"scenario": "live-rekey-while-forward-pending",
+            "steps": ["forward granted", "cancel", "forward requested, server holds its denial",
+                      "server-initiated re-key completes", "denial delivered", "server opens forwarded-tcpip"]}
+    try:
+        ts.add_server_key(_key())
+        ts.start_server(threading.Event(), srv)
+        tc.connect(username="u", password="p")
+        tc.request_port_forward("127.0.0.1", 4022)
+        tc.cancel_port_forward("127.0.0.1", 4022)
+        srv.grant = False
+        held, got, res = [], threading.Event(), {}
+        orig = ts._handler_table[MSG_GLOBAL_REQUEST]
+
+        def hold(m):
+            held.append(m)
+            got.set()
+
+        ts._handler_table[MSG_GLOBAL_REQUEST] = hold
+
+        def ask():
+            try:
+                res["port"] = tc.request_port_forward("127.0.0.1", 4023)
+            except paramiko.SSHException as e:
+                res["exc"] = repr(e)
+
+        th = threading.Thread(target=ask, daemon=True)
+        th.start()
+        if not got.wait(5):
+            raise RuntimeError("server never saw the second tcpip-forward")
+        st, v = with_watchdog(ts.renegotiate_keys, 10)
+        if st != "ok":
+            raise RuntimeError("re-key did not complete: %r" % (v,))
+        th.join(0.5)
+        early = not th.is_alive()
+        ts._handler_table[MSG_GLOBAL_REQUEST] = orig
+        orig(held[0])                     # the late REQUEST_FAILURE
+        th.join(5)
+        installed = tc._tcp_handler is not None
+        accepted = False
+        try:
+            ch = ts.open_forwarded_tcpip_channel(("10.9.8.7", 51000), ("127.0.0.1", 4023))
+            accepted = True
+            ch.close()
+        except paramiko.ChannelException:
+            pass
+        ctx.count(("live-rekey",), nontrivial=True, kind="live-rekey-while-pending")
+        obs = {"request_port_forward_returned_before_the_reply": early, "result": res,
+               "tcp_handler_installed": installed, "forwarded_tcpip_accepted": accepted}
+        if early or "port" in res or installed:
+            ctx.fail("stale-global-response-after-rekey",
+                     "a re-key completing while request_port_forward was waiting made the client take the previous "
+                     "global request's success for the answer: the refused forward looks granted", case=case,
+                     observed=obs)
+        if accepted:
+            ctx.fail("client-accepted-unrequested-channel",
+                     "client accepted a server-opened forwarded-tcpip channel although the server had refused the "
+                     "port forward (stale reply read after a re-key)", case=case, observed=obs)
+    finally:
+        for t in (tc, ts):
+            try:
+                t.close()
+            except Exception:
+                pass
 
 
 def drive_requests(ctx, cases, n_random):
@@ -532,7 +701,9 @@ def run(ctx):
                 "granted/denied, agent, forward granted/denied x active/inactive, cancel active/inactive, other "
                 "wait=True global request granted/denied), each exhaustive history under two deterministic schedules "
                 "(reply processed before the caller waits; reply processed by a second thread that is descheduled "
-                "right after Event.set() so that the waiter runs first): exhaustive up to length 2 "
+                "right after Event.set() so that the waiter runs first), plus forwards whose reply arrives only "
+                "after a re-key has completed (real _parse_newkeys on the rig after 8 kinds of earlier replies; one "
+                "end-to-end run on a real loopback pair with a server-initiated re-key and a withheld denial): exhaustive up to length 2 "
                 "(quick) / 3 (thorough) plus seeded random ones up to length 10, each with default or custom "
                 "handlers; after each history the three forwardable kinds, session, direct-tcpip and random / "
                 "near-miss kinds are offered; all 10 named channel requests plus random names x want_reply x "
@@ -549,8 +720,15 @@ def run(ctx):
     for n in range(1, maxlen + 1):
         hists += list(itertools.product(range(NEV), repeat=n))
     nexh = len(hists)
+    # a re-key completes while a wait=True global request is pending: after every kind of earlier reply
+    for prefix in ((), (3,), (3, 7), (9,), (10,), (0,), (4,), (9, 7)):
+        for code in (11, 12):
+            hists.append(prefix + (code,))
+            if ctx.thorough:
+                hists.append(prefix + (code, rng.randrange(NEV)))
     for _ in range(600 if ctx.thorough else 120):
-        hists.append(tuple(rng.randrange(NEV) for _ in range(rng.randrange(3, 11))))
+        hists.append(tuple(rng.randrange(NEV) if rng.random() < 0.97 else rng.choice((11, 12))
+                           for _ in range(rng.randrange(3, 11))))
     # ---- 1. implementation-level oracles (never depend on the translator / model) ----------
     cases = []
     for i, h in enumerate(hists):
@@ -565,6 +743,7 @@ def run(ctx):
     # them calls the unset handler - TypeError - which is a server-side matter outside this property)
     for ok in (True, False):
         drive_open(ctx, (), False, other + ["weird", "x12"], cases, server=SpyServer(ok))
+    live_rekey_scenario(ctx)
     rcases = []
     drive_requests(ctx, rcases, 120 if ctx.thorough else 30)
     gcases = []
@@ -602,7 +781,10 @@ def replay(ctx, rep):
     case = rep["case"]
     if not isinstance(case, dict):
         return run(ctx)
-    if "kind" in case and "history" in case:
+    if case.get("scenario") == "live-rekey-while-forward-pending":
+        live_rekey_scenario(ctx)
+        live_rekey_scenario(ctx)
+    elif "kind" in case and "history" in case:
         hist = tuple(EVENT_NAMES.index(x) for x in case["history"])
         for _ in range(2):
             drive_open(ctx, hist, bool(case.get("custom_handlers")), [case["kind"]], [],
